@@ -29,17 +29,18 @@ type solver struct {
 	Queries int
 	Time    time.Duration
 	depth   int
+	started time.Time
 }
 
 func startSolver() *solver {
-	cmd := exec.Command("z3", "-in", "-T:600")
+	cmd := exec.Command("z3", "-in", "-T:3600") // hard cap of the process; it is restarted long before (beginPath)
 	in, _ := cmd.StdinPipe()
 	out, _ := cmd.StdoutPipe()
 	cmd.Stderr = os.Stderr
 	if err := cmd.Start(); err != nil {
 		panic(engineError{"cannot start z3: " + err.Error()})
 	}
-	s := &solver{cmd: cmd, in: bufio.NewWriterSize(in, 1<<16), out: bufio.NewReader(out)}
+	s := &solver{cmd: cmd, in: bufio.NewWriterSize(in, 1<<16), out: bufio.NewReader(out), started: time.Now()}
 	s.in.WriteString(preludeT1())
 	s.in.WriteString("(set-option :timeout 20000)\n")
 	return s
@@ -395,7 +396,7 @@ func (x *Explorer) beginPath(prefix []int64) {
 		return
 	}
 	x.pathsSinceRestart++
-	if x.Z == nil || x.pathsSinceRestart > 1500 {
+	if x.Z == nil || x.pathsSinceRestart > 1500 || time.Since(x.Z.started) > 5*time.Minute {
 		x.Z.stop()
 		resetTerms()
 		x.Z = startSolver()
